@@ -509,10 +509,15 @@ func strUpper(L *LState) int {
 }
 
 func luaIndex2StringIndex(str string, i int, start bool) int {
+	l := len(str)
+	if i < -l-1 {
+		// every position in front of the string is the same one: clamped before the arithmetic
+		// below, which overflows for the smallest int
+		i = -l - 1
+	}
 	if start && i != 0 {
 		i -= 1
 	}
-	l := len(str)
 	if i < 0 {
 		i = l + i + 1
 	}
